@@ -161,8 +161,19 @@ def make_config(rng, darsia, idx):
         weights = [pa, da]
         pobj = pi if pi is not None else (pa.copy() if isinstance(pa, np.ndarray) else pa)
         dobj = di if di is not None else (da.copy() if isinstance(da, np.ndarray) else da)
+        if idx % 6 == 3 and isinstance(pa, np.ndarray) and isinstance(da, np.ndarray):
+            # both weights as 8-bit integer maps (counts of pores per voxel, depth in millimetres): their product is the
+            # product of the numbers
+            pa = rng.integers(1, 21, size=shape).astype(float)
+            da = rng.integers(1, 21, size=shape).astype(float)
+            weights = [pa, da]
+            pobj = pa.astype(np.uint8) if pi is None else darsia.Image(pa.astype(np.uint8), space_dim=dim, dimensions=list(dims), scalar=True)
+            dobj = da.astype(np.uint8) if di is None else darsia.Image(da.astype(np.uint8), space_dim=dim, dimensions=list(dims), scalar=True)
+            wkind_suffix = ":uint8"
+        else:
+            wkind_suffix = ""
         ctor = lambda own=None: darsia.ExtrudedPorousGeometry(porosity=pobj, depth=dobj, **{**geo_kw, **(own or {})})
-        wkind = f"{pk}+{dk}"
+        wkind = f"{pk}+{dk}" + wkind_suffix
     else:
         if wkind == "image":
             wkind = "ndarray"  # only ExtrudedPorousGeometry documents Image weights
